@@ -54,7 +54,7 @@ PROPS = {
     "C12": {"jobs": [enum("TestC12Classes"),
                      # the drop-all / drain / attach sequence on a real AF_PACKET handle in a private network namespace
                      enum("TestC12KernelAttach"), rapid("TestC12Random", 20000, 300000), rapid("TestC12EndToEnd", 1500, 10000)]},
-    "C13": {"jobs": [enum("TestC13KernelSink"), enum("TestC13KernelNonIPFrames"),
+    "C13": {"jobs": [enum("TestC13KernelSink"), enum("TestC13KernelNonIPFrames"), enum("TestC13KernelPortSpaces"),
                      {"kind": "script", "name": "C13Kernel", "run": "C13Kernel", "cmd": ["python3", "c13_kernel.py"], "timeout_quick": 600, "timeout_thorough": 2400},
                      # "several traceroutes running at once" on the real-socket path: a wrong result there needs an
                      # interleaving of microseconds (two runs attaching their filters at the same moment), which the
@@ -67,8 +67,9 @@ PROPS = {
                      enum("TestC16ConcurrentIDs", race=True, name="TestC16ConcurrentIDs(race)", env={"GORACE": "halt_on_error=1 exitcode=66", "VERIF_C16_DOCS": "2000"}),
                      rapid("TestC15", 300, 1500, race=True, name="TestC15(race)", thorough_only=True, env={"GORACE": "halt_on_error=1 exitcode=66"}),
                      {"kind": "script", "name": "C13KernelRace", "run": "C13KernelRace", "cmd": ["python3", "c13_kernel.py"], "env": {"VERIF_C13_RACE": "1"}, "timeout_quick": 900, "timeout_thorough": 2400}]},
-    "C15": {"jobs": [rapid("TestC15", 2500, 8000)]},
-    "C16": {"jobs": [rapid("TestC16", 20000, 120000), enum("TestC16ConcurrentIDs"), enum("TestC16AfterFailedWrite")]},
+    "C15": {"jobs": [rapid("TestC15", 2500, 8000), enum("TestC15ServerLongRun", thorough_only=True, timeout_thorough=400)]},
+    "C16": {"jobs": [rapid("TestC16", 20000, 120000), enum("TestC16ConcurrentIDs"), enum("TestC16AfterFailedWrite"),
+                     {"kind": "script", "name": "CliFlagsC16", "run": "CliFlagsC16", "cmd": ["python3", "cli_flags.py"], "env": {"CLI_FLAGS_PROP": "C16"}, "timeout_quick": 600, "timeout_thorough": 1200}]},
     "C17": {"jobs": [rapid("TestC17Docs", 10000, 60000), rapid("TestC17Request", 1000, 4000),
                      # the command line's own handling of --skip-private-hops (flag order, spellings), on a real path with private routers
                      {"kind": "script", "name": "CliFlagsC17", "run": "CliFlagsC17", "cmd": ["python3", "cli_flags.py"], "env": {"CLI_FLAGS_PROP": "C17"}, "timeout_quick": 600, "timeout_thorough": 1800}]},
